@@ -347,3 +347,58 @@ func c14GradientBoxDivisors(c *core.Check) {
 		r.Unknown("svg.gradient.paint | divisions by the box sides", p.Pos(fn.Pos()), "none found")
 	}
 }
+
+// c14CriticalPointsFiltered (R18): the critical points of a Bézier segment are roots of a quadratic: a division by the
+// leading coefficient and a square root, NaN for a degenerate segment (all abscissas equal).  computeBezierBoundingBox
+// keeps those inside [0, 1]; the filter must reject NaN, and every ordered comparison with NaN is false: the call of
+// evaluateCurve(t) is reached only on paths where at least one ordered comparison of t came out TRUE
+// (`!(0 <= t && t <= 1)` rejects NaN, `t < 0 || t > 1` lets it through to the bounding box, and from there to
+// NewGroup and the gradient matrices).
+func c14CriticalPointsFiltered(c *core.Check) {
+	p := c.Prog
+	r := c.Rule("R18", "critical points are filtered against NaN: in svg.computeBezierBoundingBox the call of evaluateCurve(t) is reached only on paths where an ordered comparison (<, <=, >, >=) of t was decided true (every ordered comparison with NaN is false)", 1)
+	fn := p.Fn("svg", "computeBezierBoundingBox")
+	if fn == nil {
+		r.Anchor("svg.computeBezierBoundingBox")
+		return
+	}
+	n := 0
+	core.Instrs(fn, func(in ssa.Instruction) {
+		call, ok := in.(*ssa.Call)
+		if !ok || !call.Call.IsInvoke() || call.Call.Method.Name() != "evaluateCurve" || len(call.Call.Args) != 1 {
+			return
+		}
+		n++
+		key := fmt.Sprintf("svg.computeBezierBoundingBox | evaluateCurve(t) #%d", n)
+		t := call.Call.Args[0]
+		var atoms []ssa.Value
+		for _, a := range core.CondAtoms(fn) {
+			b, ok := a.(*ssa.BinOp)
+			if !ok {
+				continue
+			}
+			switch b.Op {
+			case token.LSS, token.LEQ, token.GTR, token.GEQ:
+				if b.X == t || b.Y == t {
+					atoms = append(atoms, a)
+				}
+			}
+		}
+		if len(atoms) == 0 {
+			r.Fail(key, p.Pos(call.Pos()), "the parameter of the curve is not compared before it is used: critical points outside [0, 1] and NaN reach the bounding box")
+			return
+		}
+		ok2, _ := core.GuardedBy(fn, call.Block(), atoms, func(m map[ssa.Value]bool) bool {
+			for _, v := range m {
+				if v {
+					return true
+				}
+			}
+			return false
+		})
+		r.Cond(ok2, key, p.Pos(call.Pos()), fmt.Sprintf("reached only when one of the %d ordered comparisons of t is true", len(atoms)), "a path reaches evaluateCurve(t) on which every ordered comparison of t was false: NaN (a degenerate segment) passes the filter and the bounding box is NaN")
+	})
+	if n == 0 {
+		r.Unknown("svg.computeBezierBoundingBox | evaluateCurve(t)", p.Pos(fn.Pos()), "no call of evaluateCurve")
+	}
+}
